@@ -220,6 +220,33 @@ def run_shard(spec):
             continue
         with_ref = (i % spec["ref_every"]) == 0
         v, info = judge_case(tap, rn, bhe_eq, with_ref)
+        # the same model object used for a second exchanger of the SAME geometry and ground but another fluid, flow and height (what
+        # calc_sts_g_functions(tube) with its partial re-initialisation is for; GHE.simulate re-uses its model object in this way)
+        if i % 2 == 0:
+            import copy as _copy
+
+            ph_b = _copy.deepcopy(ph)
+            ph_b["fluid"] = GP.draw_fluid(g)
+            H_b = float(round(g.uniform(20, 400), 1))
+            flow_b = GP.draw_flow(g, arr)
+            try:
+                eq_b = GP.make_bhe(ph_b, H_b, flow_b).to_single()
+            except Exception:
+                eq_b = None
+            same_geometry = eq_b is not None and eq_b.pipe.r_in == bhe_eq.pipe.r_in and eq_b.pipe.r_out == bhe_eq.pipe.r_out and eq_b.b.r_b == bhe_eq.b.r_b
+            if same_geometry:
+                rn_b = RadialNumericalBH(eq_b)
+                rn_b.calc_sts_g_functions(eq_b)
+                tap.reset()
+                rn.calc_sts_g_functions(eq_b)  # rn was constructed for the first exchanger
+                v2, _ = judge_case(tap, rn, eq_b, False)
+                for x in v2:
+                    mech = x["mechanism"] if x["mechanism"] == "far-field-boundary-leak" else "reused-model-object:" + x["mechanism"]
+                    v.append({"mechanism": mech, "message": x["message"]})
+                if not (np.array_equal(rn.g, rn_b.g) and np.array_equal(rn.g_bhw, rn_b.g_bhw) and np.array_equal(rn.lntts, rn_b.lntts)):
+                    v.append({"mechanism": "reused-model-object:response-differs-from-fresh-object",
+                              "message": f"second exchanger (fluid {ph_b['fluid']}, H {H_b}) on the re-used object: max |dg| = {float(np.max(np.abs(np.asarray(rn.g) - np.asarray(rn_b.g)))) if len(rn.g) == len(rn_b.g) else 'length'}"})
+                res["reused_object_runs"] = res.get("reused_object_runs", 0) + 1
         res["cases"] += 1
         res["steps"] += info["steps"]
         res["pipes"][arr] = res["pipes"].get(arr, 0) + 1
@@ -246,7 +273,8 @@ def check(tier, seed):
     rep.rule = (
         "case = borehole (four pipe types, converted through to_single(); r_b 55-110 mm, H 20-400 m with 25 % at the extremes, soil k "
         "0.5-5, rho_cp 1e6-4e6, five fluids, flow 0.03-1.5 L/s); the real calc_sts_g_functions runs under the cell-table and per-step "
-        "temperature taps. non-trivial = case that was also compared with the independent finer-mesh solver; distinct by inputs."
+        "temperature taps; every 2nd case re-uses its model object for a second exchanger of the same geometry and ground but another fluid, "
+        "flow and height and must reproduce a fresh object bit for bit. non-trivial = case that was also compared with the independent finer-mesh solver; distinct by inputs."
     )
     hits = {"fill_radial_cells": 0, "dgtsv": 0}
     for r in results:
@@ -256,6 +284,7 @@ def check(tier, seed):
         rep.evaluations += r["cases"]
         rep.count("solver_steps_observed", r["steps"])
         rep.count("skipped_unusable_exchanger", r["skipped"])
+        rep.count("reused_model_object_runs", r.get("reused_object_runs", 0))
         for k2, v2 in (r["hits"] or {}).items():
             hits[k2] += v2
         for k2, v2 in r["worst"].items():
